@@ -160,6 +160,7 @@ def c05_rules(m):
                     cases.append(("free", " " * k + st, True))
             for base in ("      x = 1 + &", "      call foo(a, &", "   10 y = 2 &"):
                 cases.append(("trailing-&", base, True))
+                cases.append(("trailing-& followed by blanks", base + "   ", True))
             cases.append(("tab", "\tx = 1", False))
             # a statement with its label, starting in columns 1-5
             for text in ("30 return", "100 format (a)", "10 x = 1", " 20 continue", "1 i=2"):
